@@ -232,6 +232,10 @@ DESIGN_CFG = {
     "MCPatch-list": _mcpatch("list"), "MCPatch-nest": _mcpatch("nest"), "MCPatch-obj": _mcpatch("obj"), "MCPatch-keyed": _mcpatch("keyed"),
 }
 
+# thorough tier: a large plan is driven and judged in chunks, one TLC run of at most ~150 k sessions each
+CHUNKS = {("C01", "dp"): 8, ("C05", "dp"): 8, ("C06", "dp"): 4, ("C07", "dp"): 8, ("C03", "pt"): 6, ("C08", "pt"): 6, ("C04", "eq"): 4,
+          ("C02", "tx"): 4, ("C09", "jp"): 3, ("C10", "jp"): 6, ("C11", "mg"): 3, ("C17", "v1"): 8, ("C18", "v1"): 3}
+
 THOROUGH_EXTRA = {p: ["MCPatch-list", "MCPatch-nest", "MCPatch-obj", "MCPatch-keyed"] for p in ("C01", "C03", "C05", "C06", "C07", "C08")}
 
 CHECKS = {
@@ -355,11 +359,15 @@ def run_check(prop, tier, seed, keep=False, only=None):
             if st.bins and bins is None:
                 bins = L.build_binaries(sc)
             props_judged = st.props or [prop]
-            plan = dict(driver=st.driver, seed=seed, table=table_path(st.table), yaml_every=st.yaml_every,
+            nchunks = CHUNKS.get((prop, st.driver), 1) if tier == "thorough" else 1
+            for ch in range(nchunks):
+              plan = dict(driver=st.driver, seed=seed, table=table_path(st.table), yaml_every=st.yaml_every,
                         items=st.planfn(tier, seed, props_judged), bins=bins or {},
                         extra={k: (tier if v == "TIER" else (0.12 if tier == "quick" else 1.0) if v == "FRAC" else ("histories_2" if tier == "quick" else "histories_3") if v == "HIST" else v)
                                for k, v in st.extra.items()})
-            work.append((plan, st.module, "%s-%d" % (st.driver, i), st, props_judged))
+              if nchunks > 1:
+                  plan["extra"]["chunk"] = [ch, nchunks]
+              work.append((plan, st.module, "%s-%d" % (st.driver, i) + ("" if nchunks == 1 else "c%d" % ch), st, props_judged))
         while work:
             plan, module, tag, st, props_judged = work.pop(0)
             if only is not None and tag == only[0]:
